@@ -17,6 +17,7 @@ CONSTANTS
   Burst <- Tr_Burst
   BroadcastDedup = TRUE
   FIX_PruneEmpty = TRUE
+  FIX_Recheck <- Tr_FixRecheck
   AllowLate = TRUE
   TrackEvicted = FALSE
   AtomicCheck = FALSE
